@@ -42,21 +42,48 @@ func (w *walkerModel) pushFront(xs ...int) {
 	}
 }
 
+// The walker under test is a Walker[any]: element 0 of the universe is the nil interface value (a legal element of an
+// interface-typed walker), every other element is the int itself.
+func wkElem(x int) any {
+	if x == 0 {
+		return nil
+	}
+
+	return x
+}
+
+func wkElems(xs []int) []any {
+	out := make([]any, len(xs))
+	for i, x := range xs {
+		out[i] = wkElem(x)
+	}
+
+	return out
+}
+
+func wkInt(e any) int {
+	if e == nil {
+		return 0
+	}
+
+	return e.(int)
+}
+
 // TestWalker: every pushed element is yielded once (every time with revisiting enabled) in queue order.
 func TestWalker(t *testing.T) {
 	const check = "walker"
-	stats.Rule(check, "rapid state machine over walker.Walker[int], universe 0..7, revisit flag drawn; Push/PushAll/PushFront(batches of 0..4, repeats allowed)/Next (only while HasNext)/HasNext/Pushed/StopWalk/WalkStopped/Reset vs queue + pushed-set model, HasNext/WalkStopped/Pushed(whole universe) compared after every step and the queue drained at the end; non-trivial = an already seen element was pushed again (any push flavour) and a Next followed; distinct by (revisit, operation list)")
+	stats.Rule(check, "rapid state machine over walker.Walker[any], universe 0..7, revisit flag drawn; Push/PushAll/PushFront(batches of 0..4, repeats allowed)/Next (only while HasNext)/HasNext/Pushed/StopWalk/WalkStopped/Reset vs queue + pushed-set model, HasNext/WalkStopped/Pushed(whole universe) compared after every step and the queue drained at the end; non-trivial = an already seen element was pushed again (any push flavour) and a Next followed; distinct by (revisit, operation list)")
 	rapid.Check(t, func(rt *rapid.T) {
 		revisit := rapid.Bool().Draw(rt, "revisit")
 		h := newHist(check, fmt.Sprintf("revisit=%v", revisit))
 		defer h.guard(rt)
-		var w *walker.Walker[int]
+		var w *walker.Walker[any]
 		if revisit {
-			w = walker.New[int](true)
+			w = walker.New[any](true)
 		} else if rapid.Bool().Draw(rt, "explicitFalse") {
-			w = walker.New[int](false)
+			w = walker.New[any](false)
 		} else {
-			w = walker.New[int]()
+			w = walker.New[any]()
 		}
 		m := &walkerModel{revisit: revisit, pushed: map[int]struct{}{}}
 		elem := rapid.IntRange(0, wkUniverse-1)
@@ -84,7 +111,7 @@ func TestWalker(t *testing.T) {
 		acts.add("Push", 4, func(rt *rapid.T) {
 			x := elem.Draw(rt, "x")
 			noteBatch("push", []int{x})
-			ret := w.Push(x)
+			ret := w.Push(wkElem(x))
 			h.op("Push(%d)", x)
 			m.push(x)
 			if ret != w {
@@ -94,7 +121,7 @@ func TestWalker(t *testing.T) {
 		acts.add("PushAll", 2, func(rt *rapid.T) {
 			xs := batch.Draw(rt, "xs")
 			noteBatch("pushall", xs)
-			ret := w.PushAll(xs...)
+			ret := w.PushAll(wkElems(xs)...)
 			h.op("PushAll(%v)", xs)
 			for _, x := range xs {
 				m.push(x)
@@ -106,7 +133,7 @@ func TestWalker(t *testing.T) {
 		acts.add("PushFront", 4, func(rt *rapid.T) {
 			xs := batch.Draw(rt, "xs")
 			noteBatch("pushfront", xs)
-			ret := w.PushFront(xs...)
+			ret := w.PushFront(wkElems(xs)...)
 			h.op("PushFront(%v)", xs)
 			m.pushFront(xs...)
 			if ret != w {
@@ -121,7 +148,7 @@ func TestWalker(t *testing.T) {
 				h.op("HasNext()=false")
 				h.fail(rt, "HasNext = false, model queue %v (stopped=%v)", m.queue, m.stopped)
 			}
-			got := w.Next()
+			got := wkInt(w.Next())
 			h.op("Next()=%d", got)
 			want := m.queue[0]
 			m.queue = m.queue[1:]
@@ -161,7 +188,7 @@ func TestWalker(t *testing.T) {
 			}
 			for x := 0; x < wkUniverse; x++ {
 				_, want := m.pushed[x]
-				if got := w.Pushed(x); got != want {
+				if got := w.Pushed(wkElem(x)); got != want {
 					h.fail(rt, "Pushed(%d) = %v, want %v", x, got, want)
 				}
 			}
@@ -174,7 +201,7 @@ func TestWalker(t *testing.T) {
 					h.op("drain HasNext()=false")
 					h.fail(rt, "HasNext = false while draining, model queue %v", m.queue)
 				}
-				got := w.Next()
+				got := wkInt(w.Next())
 				h.op("drain Next()=%d", got)
 				want := m.queue[0]
 				m.queue = m.queue[1:]
